@@ -68,6 +68,22 @@ class CtorEval:
             v = self.ev(node.value, env)
             if isinstance(v, list) and isinstance(node.slice, ast.Constant):
                 return v[node.slice.value]
+            if isinstance(v, list) and isinstance(node.slice, ast.Slice):
+                def bound(b):
+                    if b is None:
+                        return None
+                    if isinstance(b, ast.Constant) and isinstance(b.value,
+                                                                  int):
+                        return b.value
+                    if isinstance(b, ast.UnaryOp) and isinstance(
+                            b.op, ast.USub) and isinstance(
+                                b.operand, ast.Constant):
+                        return -b.operand.value
+                    raise AnalysisError('%s: non-literal slice' %
+                                        self.fi.where(node))
+                sl = node.slice
+                return v[slice(bound(sl.lower), bound(sl.upper),
+                               bound(sl.step))]
         if isinstance(node, ast.Attribute):
             t = text(node)
             if t == self.base + '.weights':
@@ -101,9 +117,16 @@ class CtorEval:
             if fn == 'np.tile' and len(node.args) == 2:
                 a = self.ev(node.args[0], env)
                 k = node.args[1]
-                if isinstance(a, Arr) and isinstance(
-                        k, ast.Constant) and isinstance(k.value, int):
-                    return Stack([a] * k.value)
+                kv = None
+                if isinstance(k, ast.Constant) and isinstance(k.value, int):
+                    kv = k.value
+                elif isinstance(k, ast.Call) and text(
+                        k.func) == 'len' and len(k.args) == 1:
+                    lv = self.ev(k.args[0], env)
+                    if isinstance(lv, list):
+                        kv = len(lv)
+                if isinstance(a, Arr) and kv is not None:
+                    return Stack([a] * kv)
         raise AnalysisError('%s: cannot evaluate `%s` symbolically' %
                             (self.fi.where(node), text(node)[:60]))
 
@@ -377,6 +400,25 @@ def check_affine(prog, report):
         w.walk_function(fi.node)
         main = [r for r in w.rets if not (isinstance(
             r[0], ast.Constant) and r[0].value == 0)]
+        # an early zero return may only cover the exactly degenerate box
+        for n_ in ast.walk(fi.node):
+            if isinstance(n_, ast.If) and any(
+                    isinstance(m_, ast.Return) and isinstance(
+                        m_.value, ast.Constant) and m_.value.value == 0
+                    for m_ in n_.body):
+                t_ = n_.test
+                exact = isinstance(t_, ast.Compare) and len(
+                    t_.ops) == 1 and isinstance(t_.ops[0], ast.Eq) and {
+                        text(t_.left), text(t_.comparators[0])} <= set(
+                            params)
+                report.check(
+                    exact, 'R-affine', '%s.integrate degenerate guard' % cls,
+                    fi.where(n_),
+                    'an early `return 0` is only correct for an exactly '
+                    'degenerate interval (a == b); a tolerance test treats '
+                    'short admissible intervals as empty; found `%s`' %
+                    text(t_), construct='%s.integrate: degenerate guard' %
+                    cls)
         if len(main) != 1:
             raise AnalysisError('%s: one value return expected' % fi.where())
         val, state, st = main[0]
@@ -432,7 +474,7 @@ def check_affine(prog, report):
                      'the result is (product of the %d side lengths) * '
                      'sum_i w_i f(x_i); found %s' % (dims, sp.factor(e)),
                      construct='%s.integrate: prefactor' % cls)
-    report.floor('R-affine', 9)
+    report.floor('R-affine', 10)
 
 
 # --------------------------------------------------------------------------
